@@ -10,7 +10,7 @@ REQUIRED = [
 META = dict(
     functions_encoded=linsol.FUNCTIONS,
     stubs=[
-        "scipy.sparse.linalg.splu := contract stub: may raise RuntimeError (symbolic); its solve(rhs, trans) returns any s with M s = rhs ('N') or M^T s = rhs ('T')",
+        "scipy.sparse.linalg.splu := contract stub: may raise RuntimeError (symbolic); its solve(rhs, trans) returns any s with M s = rhs ('N') or M^T s = rhs ('T') -- SuperLU's guarantee under partial pivoting (its default); when the wrapper relaxes the pivoting (diag_pivot_thresh != 1, SymmetricMode) the stub promises nothing about s",
         "scipy.sparse.linalg.gmres / minres := contract stubs returning an arbitrary vector and an arbitrary integer info",
     ],
     assumptions=["the numerical accuracy of SuperLU / GMRES / MINRES (first sentence of the property: small relative residual for nonsingular systems) is compiled library code and is NOT decided here; what is decided is that the wrappers hand the library the requested system and never return a vector when the library reports failure"],
@@ -24,6 +24,7 @@ def tasks(tier):
     n = 2 if tier == "quick" else 3
     o = dict(nra=True, timeout_ms=60000)
     t = [dict(module="linsol", fn="h_lu", shape=dict(n=n, fmt=f), opts=o) for f in ("csc", "coo", "csr")]
+    t += [dict(module="linsol", fn="h_lu", shape=dict(n=n, fmt=f, symmetric=True), opts=o) for f in ("csc", "csr")]  # the way the symmetric step solver asks for it
     for kind in ("GMRES", "MINRES"):
         for trans in (False, True):
             for guess in (False, True):
